@@ -10,6 +10,7 @@ import (
 	"sync"
 	"time"
 
+	"hpverif/internal/capfs"
 	"hpverif/internal/core"
 	"hpverif/internal/fsx"
 
@@ -33,7 +34,7 @@ type c05stack struct {
 
 var c05stacks = []c05stack{
 	{"mem", "", false}, {"mem-deep", "d", false},
-	{"mount0", "", false}, {"mount-cross", "", false}, {"mount1", "m", false}, {"mount1-deep", "m/d", false}, {"mount2", "m/n", false}, {"mount-nested", "m/n", false}, {"mount-nested-inner", "m", false},
+	{"mount0", "", false}, {"mount-cross", "", false}, {"mount-cross(no-rename)", "", false}, {"mount1", "m", false}, {"mount1-deep", "m/d", false}, {"mount2", "m/n", false}, {"mount-nested", "m/n", false}, {"mount-nested-inner", "m", false},
 	{"sub-dot(mem)", "", false}, {"sub-dot(mount1)", "m", false}, {"mount-lookalike", "ab/a", false}, {"sub(mem)", "", false}, {"sub(mem)-deep", "d", false}, {"sub(mount1)", "", false}, {"sub(mount-above)", "m", false}, {"sub(sub(mem))", "", false},
 	{"os1", "", false}, {"os1-deep", "d", false}, {"os2", "", false}, {"os3", "", false},
 	{"cache", "", true}, {"cache-deep", "d", true}, {"tar", "", true}, {"tar-deep", "d", true}, {"tar-failed", "", true}, {"tar-failed-deep", "d", true},
@@ -55,7 +56,7 @@ func c05build(env *core.Env, st c05stack) (*c05built, error) {
 	switch st.name {
 	case "mem", "mem-deep":
 		b.fs = mk()
-	case "mount0", "mount1", "mount1-deep", "mount2", "mount-cross":
+	case "mount0", "mount1", "mount1-deep", "mount2", "mount-cross", "mount-cross(no-rename)":
 		root := mk()
 		mf, _ := mount.NewFS(root)
 		_ = hackpadfs.Mkdir(root, "zz", 0o755)
@@ -63,7 +64,16 @@ func c05build(env *core.Env, st c05stack) (*c05built, error) {
 		if st.name != "mount0" {
 			_ = hackpadfs.Mkdir(root, "m", 0o755)
 			m1 := mk()
-			if err := mf.AddMount("m", m1); err != nil {
+			var mounted hackpadfs.FS = m1
+			if st.name == "mount-cross(no-rename)" {
+				// the file system mounted at m offers everything mem has, except Rename (moves into it are always copies)
+				masked, _, err := capfs.New(m1, capfs.Native(m1)&^capfs.FSBit("Rename"), capfs.AllFile)
+				if err != nil {
+					return nil, err
+				}
+				mounted = masked
+			}
+			if err := mf.AddMount("m", mounted); err != nil {
 				return nil, err
 			}
 			if st.name == "mount2" {
@@ -255,7 +265,7 @@ func c05prefix(prefix, p string) string {
 }
 
 func c05prefixStep(stack c05stack, st fsx.Step) fsx.Step {
-	if stack.name == "mount-cross" {
+	if strings.HasPrefix(stack.name, "mount-cross") {
 		// names whose first element is "b" live in the file system mounted at "m"; everything else in the root file
 		// system: the matrix's renames from a... to b... cross the mount boundary
 		cross := func(p string) string {
@@ -392,7 +402,7 @@ func c05run(env *core.Env, idx int) core.CaseResult {
 	}
 	defer b.cleanup()
 	// the prefix directory exists on both sides
-	if stack.name == "mount-cross" {
+	if strings.HasPrefix(stack.name, "mount-cross") {
 		_ = hackpadfs.MkdirAll(ref, "m", 0o755)
 	}
 	if stack.prefix != "" {
@@ -570,7 +580,7 @@ func c05run(env *core.Env, idx int) core.CaseResult {
 				res.Violate(sigBase+"path:"+c05pathKind(sr.EPath, want), detail(fmt.Sprintf("error names %q, expected %q", sr.EPath, want)), wit)
 			}
 		}
-		if !rr.OK() && c05sentinels[rr.Err] && sr.Err != rr.Err && sr.Err != "ErrNotImplemented" && !strings.HasPrefix(stack.name, "tar-failed") { // (after a failed unpack the FS answers with the unpack error: type and path are checked, the class is its own)
+		if !rr.OK() && c05sentinels[rr.Err] && sr.Err != rr.Err && sr.Err != "ErrNotImplemented" && (invalidRide || !strings.HasPrefix(stack.name, "tar-failed")) { // (after a failed unpack the FS answers valid names with the unpack error: type and path are checked, the class is its own; an invalid name is still an invalid name)
 			res.Violate(sigBase+"class="+sr.Err+",want="+rr.Err, detail("error matches a different sentinel than os's"), wit)
 		}
 		if rr.OK() && !strings.HasPrefix(stack.name, "tar-failed") {
@@ -590,7 +600,7 @@ func c05run(env *core.Env, idx int) core.CaseResult {
 
 // c05touchesMountPoint: removing or renaming the mount point itself is not an operation on the mirrored namespace.
 func c05touchesMountPoint(stack c05stack, st fsx.Step) bool {
-	if stack.name != "mount-cross" {
+	if !strings.HasPrefix(stack.name, "mount-cross") {
 		return false
 	}
 	switch st.K {
